@@ -28,9 +28,9 @@ def ob_upload(cx):
     alpha = "abcd"
     files = []
     for i in range(n):
-        shape = cx.pick("shape%d" % i, ["unchanged", "modified", "removed", "added", "renamed", "renamed+modified"])
+        shape = cx.pick("shape%d" % i, ["unchanged", "modified", "removed", "added", "renamed", "renamed+modified", "removed_dir"])
         old = None if shape == "added" else cx.str("old%d" % i, 1, alpha)
-        if shape == "removed":
+        if shape in ("removed", "removed_dir"):
             new = None
         elif shape in ("unchanged", "modified"):
             new = old
@@ -50,9 +50,22 @@ def ob_upload(cx):
 
     def new_text(f):
         return (b"new-%d" % f["i"]) if f["changed"] else old_text(f)
-    remote = [[f["old"], old_text(f)] for f in files if f["old"] is not None]        # association list name -> content
+    # association list name -> content; a removed directory D is an entry D (content DIR) with one file D/x inside
+    DIR = b"<directory>"
+    remote = []
+    for f in files:
+        if f["old"] is None:
+            continue
+        if f["shape"] == "removed_dir":
+            remote.append([f["old"], DIR])
+            remote.append([f["old"] + "/x", b"inside-%d" % f["i"]])
+        else:
+            remote.append([f["old"], old_text(f)])
     revid_file = ["rev-old"]
     log = []
+
+    def children(name):
+        return [ent for ent in remote if len(ent[0]) == len(name) + 2 and T(ent[0][:len(name)] == name) and T(ent[0][len(name):] == "/x")]
 
     def find(name):
         for ent in remote:
@@ -84,6 +97,16 @@ def ob_upload(cx):
             log.append("delete")
 
         @staticmethod
+        def rmdir(a):
+            ent = find(a)
+            if ent is None:
+                raise E.NoSuchFile("<remote directory>")
+            if children(a):
+                raise E.DirectoryNotEmpty("<remote directory>")
+            remote.remove(ent)
+            log.append("rmdir")
+
+        @staticmethod
         def put_bytes(a, data, mode=None):
             if a == ".bzr-upload.revid":
                 revid_file[0] = data
@@ -91,6 +114,8 @@ def ob_upload(cx):
             ent = find(a)
             if ent is None:
                 remote.append([a, data])
+            elif ent[1] is DIR:
+                raise E.ReadError("<remote path is a directory>")
             else:
                 ent[1] = data
             log.append("put")
@@ -105,13 +130,21 @@ def ob_upload(cx):
             return ent[1]
 
     class Change:
-        def __init__(self, f):
-            self.path = (f["old"], f["new"])
-            self.kind = ("file" if f["old"] is not None else None, "file" if f["new"] is not None else None)
+        def __init__(self, f, path=None, kind=None):
+            self.path = (f["old"], f["new"]) if path is None else path
+            self.kind = ("file" if f["old"] is not None else None, "file" if f["new"] is not None else None) if kind is None else kind
             self.changed_content = f["changed"]
+    removed_changes = []
+    for f in files:
+        if f["shape"] == "removed":
+            removed_changes.append(Change(f))
+        elif f["shape"] == "removed_dir":
+            # the tree delta lists a removed directory before the files that were inside it
+            removed_changes.append(Change(f, kind=("directory", None)))
+            removed_changes.append(Change(f, path=(f["old"] + "/x", None), kind=("file", None)))
 
     class Delta:
-        removed = [Change(f) for f in files if f["shape"] == "removed"]
+        removed = removed_changes
         renamed = [Change(f) for f in files if f["shape"] in ("renamed", "renamed+modified")]
         modified = [Change(f) for f in files if f["shape"] == "modified"]
         added = [Change(f) for f in files if f["shape"] == "added"]
@@ -172,6 +205,9 @@ def ob_upload(cx):
         cx.cover("name_reused")
     if any(f["shape"] == "renamed+modified" for f in files):
         cx.cover("renamed_and_modified")
+    if any(f["shape"] == "removed_dir" and any(g["new"] is not None and T(g["new"] == f["old"]) for g in files if g is not f)
+           for f in files):
+        cx.cover("directory_replaced_by_file")
     cx.observe("ops", list(log))
 
 
@@ -179,6 +215,6 @@ def obligations(tier):
     q = tier == "quick"
     p = dict(nfiles=2 if q else 3)
     return [Ob("incremental_upload", ob_upload, [UP], p, 900 if q else 7200, 2 if q else 1,
-               ["rename_chain_or_swap", "name_reused", "renamed_and_modified"],
+               ["rename_chain_or_swap", "name_reused", "renamed_and_modified", "directory_replaced_by_file"],
                bounds="<= %(nfiles)d files (unchanged / modified / removed / added / renamed / renamed and modified) with symbolic "
                       "one-letter names over 4 letters: every pattern of coinciding old and new names" % p)]
